@@ -1008,8 +1008,17 @@ def r_scalar_operands_keep_their_type(c):
         raise AnalysisError("anchor vanished: the functions an operand passes through "
                             "before dtype inference (_binary_op, broadcast_binary_op, ...)")
     for fd in fns:
-        params = {a.arg for a in fd.args.posonlyargs + fd.args.args + fd.args.kwonlyargs} \
-            - {"self", "cls"}
+        # (operands, not flags: parameters annotated bool / str or with a constant
+        # default are options of the call)
+        allp = fd.args.posonlyargs + fd.args.args
+        defaults = dict(zip([a.arg for a in allp][len(allp) - len(fd.args.defaults):],
+                            fd.args.defaults))
+        defaults.update({a.arg: d for a, d in zip(fd.args.kwonlyargs, fd.args.kw_defaults)
+                         if d is not None})
+        params = {a.arg for a in allp + fd.args.kwonlyargs
+                  if not (a.annotation is not None
+                          and ast.unparse(a.annotation) in ("bool", "str", "'bool'", "'str'"))
+                  and not isinstance(defaults.get(a.arg), ast.Constant)} - {"self", "cls"}
         mi = m.module_of(fd)
         qn = m.qualname(fd).replace("pytato.", "", 1)
         bad = []
